@@ -63,3 +63,134 @@ pub fn c07_key_from_slice_len() {
         kani::cover!(true, "3-byte slice accepted");
     }
 }
+
+// ---------------------------------------------------------------------------------------------
+// compress / decompress round trip of the derive-generated and hand-written impls for the types
+// that do not need a coin/message lookup: Policies, UpgradePurpose and the five Output variants,
+// against an array-backed registry context (keys handed out sequentially; no hashing).
+// Specification: every field that is not marked compress(skip) comes back unchanged; skipped
+// fields (exactly the malleable ones) come back as their defaults.
+// ---------------------------------------------------------------------------------------------
+use core::convert::Infallible;
+use core::future::Future;
+use core::pin::pin;
+use core::task::{Context, Poll, RawWaker, RawWakerVTable, Waker};
+use fuel_compression::{CompressibleBy, ContextError, DecompressibleBy};
+use fuel_tx::{output::Output, policies::{Policies, PolicyType}, UpgradePurpose};
+use fuel_types::{Address, AssetId, Bytes32, ContractId};
+
+fn noop_raw() -> RawWaker {
+    fn no(_: *const ()) {}
+    fn cl(_: *const ()) -> RawWaker { noop_raw() }
+    static VT: RawWakerVTable = RawWakerVTable::new(cl, no, no, no);
+    RawWaker::new(core::ptr::null(), &VT)
+}
+/// The derive output never suspends; drive it with a no-op waker (bounded: 4 polls).
+fn block_on<F: Future>(f: F) -> F::Output {
+    let waker = unsafe { Waker::from_raw(noop_raw()) };
+    let mut cx = Context::from_waker(&waker);
+    let mut f = pin!(f);
+    let mut n = 0;
+    loop {
+        if let Poll::Ready(v) = f.as_mut().poll(&mut cx) { return v }
+        n += 1;
+        assert!(n < 4, "compression futures complete without suspending");
+    }
+}
+
+pub struct Ctx { vals: [[u8; 32]; 4], used: usize }
+impl ContextError for Ctx { type Error = Infallible; }
+impl Ctx {
+    fn new() -> Self { Ctx { vals: [[0; 32]; 4], used: 0 } }
+    fn key_for(&mut self, v: &[u8; 32]) -> RegistryKey {
+        let mut i = 0;
+        while i < self.used { if crate::mk::eq32(&self.vals[i], v) { return RegistryKey::try_from(i as u32).unwrap() } i += 1; }
+        assert!(self.used < 4);
+        self.vals[self.used] = *v;
+        self.used += 1;
+        RegistryKey::try_from((self.used - 1) as u32).unwrap()
+    }
+    fn value_of(&self, k: RegistryKey) -> [u8; 32] { let i = k.as_u32() as usize; assert!(i < self.used); self.vals[i] }
+}
+macro_rules! registry_type {
+    ($t:ty) => {
+        impl CompressibleBy<Ctx> for $t {
+            async fn compress_with(&self, ctx: &mut Ctx) -> Result<RegistryKey, Infallible> { Ok(ctx.key_for(&**self)) }
+        }
+        impl DecompressibleBy<Ctx> for $t {
+            async fn decompress_with(k: RegistryKey, ctx: &Ctx) -> Result<$t, Infallible> { Ok(<$t>::new(ctx.value_of(k))) }
+        }
+    };
+}
+registry_type!(Address);
+registry_type!(AssetId);
+registry_type!(ContractId);
+
+fn round_trip<T: CompressibleBy<Ctx> + DecompressibleBy<Ctx>>(v: &T) -> T {
+    let mut ctx = Ctx::new();
+    let c = match block_on(v.compress_with(&mut ctx)) { Ok(c) => c, Err(_) => unreachable!() };
+    match block_on(T::decompress_with(c, &ctx)) { Ok(v) => v, Err(_) => unreachable!() }
+}
+
+macro_rules! ch {
+    ($name:ident, $body:block) => {
+        #[kani::proof] #[kani::unwind(8)]
+        #[kani::stub(core::result::Result::expect, crate::mk::expect_model)]
+        #[kani::stub(core::result::Result::unwrap, crate::mk::unwrap_model)]
+        pub fn $name() $body
+    };
+}
+fn b32() -> [u8; 32] { kani::any() }
+
+fn policies(mask: u8) -> Policies {
+    let mut p = Policies::new();
+    if mask & 1 != 0 { p.set(PolicyType::Tip, Some(kani::any())); }
+    if mask & 2 != 0 { p.set(PolicyType::WitnessLimit, Some(kani::any())); }
+    if mask & 4 != 0 { p.set(PolicyType::Maturity, Some(kani::any::<u32>() as u64)); }
+    if mask & 8 != 0 { p.set(PolicyType::MaxFee, Some(kani::any())); }
+    if mask & 16 != 0 { p.set(PolicyType::Expiration, Some(kani::any::<u32>() as u64)); }
+    if mask & 32 != 0 { p.set(PolicyType::Owner, Some(kani::any())); }
+    p
+}
+ch!(c07_rt_policies, {
+    let mask: u8 = kani::any();
+    kani::assume(mask < 64);
+    let p = policies(mask);
+    let q = round_trip(&p);
+    assert!(p == q && p.bits() == q.bits(), "policies (part of the id) survive compression unchanged");
+    kani::cover!(p.get(PolicyType::Tip) == Some(0), "explicit zero tip");
+});
+ch!(c07_rt_upgrade_purpose, {
+    let p = if kani::any() { UpgradePurpose::ConsensusParameters { witness_index: kani::any(), checksum: Bytes32::new(b32()) } }
+            else { UpgradePurpose::StateTransition { root: Bytes32::new(b32()) } };
+    let q = round_trip(&p);
+    assert!(p == q, "the upgrade purpose (part of the id) survives compression unchanged");
+    kani::cover!(matches!(p, UpgradePurpose::ConsensusParameters { witness_index, .. } if witness_index != 0), "non-zero witness index");
+});
+ch!(c07_rt_output_coin, {
+    let o = Output::coin(Address::new(b32()), kani::any(), AssetId::new(b32()));
+    assert!(round_trip(&o) == o);
+    kani::cover!(true, "coin output");
+});
+ch!(c07_rt_output_change, {
+    let (to, a) = (Address::new(b32()), AssetId::new(b32()));
+    let o = Output::change(to, kani::any(), a);
+    assert!(round_trip(&o) == Output::change(to, 0, a), "only the malleable amount is dropped");
+    kani::cover!(true, "change output");
+});
+ch!(c07_rt_output_variable, {
+    let o = Output::variable(Address::new(b32()), kani::any(), AssetId::new(b32()));
+    assert!(round_trip(&o) == Output::variable(Address::zeroed(), 0, AssetId::zeroed()));
+    kani::cover!(true, "variable output");
+});
+ch!(c07_rt_output_contract, {
+    let i: u16 = kani::any();
+    let o = Output::contract(i, Bytes32::new(b32()), Bytes32::new(b32()));
+    assert!(round_trip(&o) == Output::contract(i, Bytes32::zeroed(), Bytes32::zeroed()));
+    kani::cover!(true, "contract output");
+});
+ch!(c07_rt_output_contract_created, {
+    let o = Output::contract_created(ContractId::new(b32()), Bytes32::new(b32()));
+    assert!(round_trip(&o) == o);
+    kani::cover!(true, "contract created output");
+});
